@@ -50,6 +50,7 @@ type sim struct {
 	idleNext     int
 	refused      map[int]map[int64]bool
 	dir          *forkDirector
+	wrng         *simcore.RNG
 
 	mon *monitor
 }
@@ -79,7 +80,31 @@ func (s *sim) walOptions() []func(*auto.Group) {
 
 // ---------------------------------------------------------------- configuration
 
+// sweepGroup is the number of crash points enumerated per workload in sweep mode.
+const sweepGroup = 384
+
 func genConfig(rng *simcore.RNG, env *simcore.Env) simcore.Op {
+	prop := env.Prop
+	crashy := prop == "C04" || prop == "C05" || prop == "C15" || prop == "C18"
+	// Crash-point enumeration (fault_enumeration claim): in the thorough tier every second
+	// run belongs to a sweep: workload w = index/sweepGroup (schedule drawn from a PRNG that
+	// depends only on w), crashed at persistence point k = index%sweepGroup+1 of the chosen
+	// node's first incarnation, with one of three durable-image variants.
+	if crashy && (env.Thorough() || env.RunIndex%8 == 0) && env.RunIndex%2 == 0 {
+		idx := env.RunIndex / 2
+		w, k := idx/sweepGroup, idx%sweepGroup+1
+		c := baseConfig(simcore.NewRNG(simcore.Mix(env.BatchSeed^0x5eed5eed, w)), env)
+		c["sweep_w"], c["sweep_k"] = w, k
+		c["crash"], c["partition"], c["skew"], c["gst"], c["nemesis"] = false, false, false, true, "none"
+		if c.Int("heights") > 3 {
+			c["heights"] = 3
+		}
+		return c
+	}
+	return baseConfig(rng, env)
+}
+
+func baseConfig(rng *simcore.RNG, env *simcore.Env) simcore.Op {
 	c := simcore.Op{}
 	prop := env.Prop
 	nv := rng.Range(1, 4)
@@ -224,8 +249,22 @@ func newSim(env *simcore.Env, cfg simcore.Op) simcore.Sim {
 	if cfg.Str("nemesis") == "fork" {
 		s.dir = &forkDirector{}
 	}
+	sweepNode := -1
+	if cfg.Has("sweep_k") {
+		w := cfg.U64("sweep_w")
+		s.wrng = simcore.NewRNG(simcore.Mix(env.BatchSeed^0xabcdef, w))
+		sweepNode = int(w % uint64(len(s.nodes)))
+		k := cfg.Int("sweep_k")
+		keep := []int{1000, 0, 500}[k%3]
+		s.armed[sweepNode] = simcore.Op{"db_keep": keep, "wal_keep": []int{1000, 0, 500}[(k/3)%3]}
+		env.Count("probe.sweep_run")
+	}
 	for _, n := range s.nodes {
+		if n.idx == sweepNode {
+			n.sweepCrashAt = cfg.Int("sweep_k")
+		}
 		n.start()
+		s.afterStimulus(n)
 		if f := n.failureMsg(); f != "" {
 			panic("consim: node failed to start: " + f)
 		}
@@ -446,8 +485,28 @@ func (s *sim) deliverables() []item {
 						}
 					}
 				}
+				// Votes: what consensus/reactor.go gossipVotesForHeight relays to a peer of the
+				// same height — the votes of the RECEIVER's round (if the holder has reached that
+				// round) and the prevotes of the receiver's proposal POL round. Relaying more
+				// (votes of rounds the receiver has not reached) would spend the receiver's
+				// per-peer catch-up-round quota (HeightVoteSet) in a way production never does.
+				rounds := map[int32]bool{}
+				if rb.Round <= ra.Round {
+					rounds[rb.Round] = true
+				}
+				polRound := int32(-1)
+				if rb.Proposal != nil && rb.Proposal.POLRound >= 0 {
+					polRound = rb.Proposal.POLRound
+					rounds[polRound] = true
+				}
 				for r := int32(0); r <= s.maxRound+2; r++ {
+					if !rounds[r] {
+						continue
+					}
 					for typ := 1; typ <= 2; typ++ {
+						if r == polRound && r != rb.Round && typ == 2 {
+							continue
+						}
 						va := voteSetOf(ra, r, typ)
 						if va == nil {
 							continue
@@ -608,6 +667,9 @@ func (n *simNode) committedHeight() int64 {
 }
 
 func (s *sim) Next(rng *simcore.RNG) simcore.Op {
+	if s.wrng != nil {
+		rng = s.wrng // sweep mode: the schedule depends only on the workload number
+	}
 	if s.opsLeft <= 0 {
 		if s.cfg.Bool("gst") && !s.gst {
 			return simcore.Op{"a": "gst"}
